@@ -19,8 +19,10 @@ LEVEL_TEXT = ("The parser/compiler model is a total Lean function whose result t
               "position are tied to compile() on mutated, truncated and random text. That no undocumented exception escapes is false on some inputs "
               "(recorded findings); outside them it is checked by the sweep over arbitrary text and Markdown documents.")
 LEVEL_NOTE = ("Partial: the interpreter's recursion limit, wall-clock time and exceptions inside marko cannot be exhibited by a total Lean function; they are "
-              "covered only by the oracle sweep (search). compile_no_internal is not a theorem. Trusted: Lean kernel, peggie PEG semantics as exercised.")
-LEAN_MODULES = ["RecipeGrid.Props.C07"]
+              "covered only by the oracle sweep (search). For the model it IS a theorem that compile returns a recipe or one of the three documented "
+              "located errors for every input (compile_documented_outcomes, compile_no_internal, parse_never_zeroDivision) and that every reported "
+              "offset lies inside the reported block's text (compile_error_in_source). Trusted: Lean kernel, peggie PEG semantics as exercised.")
+LEAN_MODULES = ["RecipeGrid.Props.C07", "RecipeGrid.Props.C07b"]
 SOURCES = ["recipe_grid/parser/__init__.py", "recipe_grid/parser/grammar.py", "recipe_grid/parser/grammar.peg", "recipe_grid/parser/ast.py",
            "recipe_grid/compiler.py", "recipe_grid/markdown.py"]
 RULE = ("arbitrary text: token soups incl. Unicode, every kind of single-edit mutation of valid descriptions, prefixes and suffixes, nesting up to 30, texts up "
